@@ -18,7 +18,7 @@ RULE = ('(i) exhaustive: case = block of forced issue bit-sets x {correct, wrong
         'advisory bit present, or an expired/revoked real key; distinct = distinct (bit-set, variant) or real-case descriptors')
 ASSUMPTIONS = ['the set of disqualifying conditions is the one the library documents in SecurityIssues.causes_signature_verify_to_fail: '
                'WrongSig, Expired, Disabled, Invalid, NoSelfSignature', 'forcing the soundness result replaces only the *input* of the aggregator']
-MIN_COUNTERS = {'forced_verdicts': 8000, 'partition_checked': 8000, 'real_verdicts': 40, 'real_expired': 8, 'monotonic_pairs': 10000, 'same_second_pairs': 12}
+MIN_COUNTERS = {'forced_verdicts': 8000, 'partition_checked': 8000, 'real_verdicts': 40, 'real_expired': 8, 'monotonic_pairs': 10000, 'same_second_pairs': 12, 'rewritten_hash_octets': 200}
 BUDGET = {'quick': (600, 1500), 'thorough': (1200, 3600)}
 TECHNIQUE = 'runtime monitoring: fault enumeration at the verdict aggregator (all 2^11 issue bit-sets) + verdict-model oracle + partition invariant on every result'
 
@@ -236,6 +236,29 @@ def _real(ctx, d, pgpy, SI):
             ctx.fail('real-verdict-differs-from-model', {'case': d, 'subject': label, 'got': bool(sv), 'expected': expect, 'issues': issues})
         if not correct and good:
             ctx.fail('wrong-signature-listed-good', {'case': d, 'subject': label})
+    # a correct signature whose hash-algorithm octet is rewritten (to identifiers the library knows by name but cannot compute - 0, RIPEMD160, the
+    # reserved ones - and to other real ones): cryptographically wrong now, so never listed as good; an exception is a refusal too
+    from ..ref import wire as W_
+    sraw = bytes(sig)
+    sp_ = W_.split(sraw)[0]
+    hpos = len(sraw) - len(sp_.body) + 3
+    for hid in (0, 1, 2, 3, 4, 5, 6, 7, 9, 10, 11, 12, 99):
+        if sraw[hpos] == hid:
+            continue
+        mraw = bytearray(sraw)
+        mraw[hpos] = hid
+        ctx.count('rewritten_hash_octets')
+        ctx.count('evaluations')
+        try:
+            s2 = pgpy.PGPSignature.from_blob(bytes(mraw))
+            sv = pub.verify(doc, s2)
+        except Exception as e:
+            ctx.outcome('rewritten_hash_octet:refused:' + type(e).__name__)
+            continue
+        good, bad = check_partition(ctx, sv, {'case': d, 'hash_octet': hid})
+        ctx.outcome('rewritten_hash_octet:' + ('truthy' if sv else 'falsy'))
+        if sv or good:
+            ctx.fail('wrong-signature-listed-good', {'case': d, 'subject': 'document', 'hash_octet_rewritten_to': hid, 'issues': [str(x.issues) for x in sv._subjects]})
     # the verifying key as an attacker would like it to read: a never-expires / expires-in-a-century (for expired keys) or an expires-after-one-
     # second (for valid ones) key-expiration subpacket appended to the unsigned area of its self-signatures: the verdict must not move
     from .. import unhashed
